@@ -115,8 +115,8 @@ impl Property for GramProp {
     }
     fn cases(&self, tier: Tier) -> u64 {
         match tier {
-            Tier::Quick => 10_000,
-            Tier::Thorough => 300_000,
+            Tier::Quick => 100_000,
+            Tier::Thorough => 2_000_000,
         }
     }
     fn generate(&self, s: &mut Src) -> Case {
